@@ -121,6 +121,14 @@ def run(ctx):
         if len(two) == 2 and abs(two[0]["value"] - two[1]["value"]) > 1e-12 * max(1.0, two[0]["value"]):
             ctx.violation("deltamax-not-composition-only", {"composition": (p, n, z), "seqs": ["".join(t["seq"]) for t in two]},
                           actual=[t["value"] for t in two])
+    # the strata of the search: lopsided charge counts, 12..17 neutrals, neighbouring compositions of one length (judged by TLC)
+    for comp in patterning.composition_grid(ctx.rng, ctx.pick(48, 400)):
+        tid += 1
+        t = trace_for(lc, ctx, tid, common.spell(patterning.arrange(comp, ctx.rng), ctx.rng), ctx.rng.choice([0, 0, 1, 2]))
+        if t:
+            trs.append(t)
+    # and, wider than TLC is asked to go: delta-max is at least the delta of any documented arrangement
+    patterning.family_lower_bound(ctx, lc, patterning.composition_grid(ctx.rng, ctx.pick(120, 1200)))
     for t in trs:
         t.pop("value", None)
     patterning.judge_traces(ctx, trs)
